@@ -207,7 +207,7 @@ def rule_panic_sites(F, ev, R, config, rule="R-PANIC-SITES"):
                       "panic-capable site `%s` on the no-panic cone is neither dominated by a guard establishing its condition nor in the reviewed table%s"
                       % (what[:100], " (more sites of this kind than reviewed)" if hit else ""), t.get("span"))
     R.notes.append(inventory)
-    R.floor(rule, config, 80, "23 explicit + 2 Sub + 56 bounds checks + index calls (pinned tree)")
+    R.floor(rule, config, 50, "pinned tree: 23 explicit + 2 Sub + 56 bounds checks + index calls = 85; the floor is a vacuity guard, not a census")
     return inventory
 
 
@@ -296,7 +296,8 @@ def finite_iter(t, depth=0):
         last = t[1].rsplit("::", 1)[-1]
         if any(x in t[1] for x in INFINITE) or last in INFINITE:
             return False
-        if t[1] in FINITE_SOURCES or last in ("iter", "iter_mut", "column_iter", "column_iter_mut", "row_iter", "row_iter_mut", "keys", "values", "drain", "chars", "bytes", "lines", "split"):
+        if t[1] in FINITE_SOURCES or last in ("iter", "iter_mut", "column_iter", "column_iter_mut", "row_iter", "row_iter_mut", "keys", "values", "drain", "chars", "bytes", "lines", "split",
+                                              "par_column_iter", "par_column_iter_mut", "par_iter", "par_iter_mut", "into_par_iter"):
             return True
         if last in FINITE_ADAPTERS and t[3]:
             if last in ("zip", "chain"):
@@ -344,6 +345,24 @@ def rule_loops_bounded(F, ev, R, config, rule="R-LOOPS-BOUNDED"):
             R.add(rule, config, k, "loop@bb%d" % h, ok,
                   "for-loop over %s" % short(it)[:100] if ok else ("loop iterator `%s` is not a recognised finite iterator" % short(it)[:120] if not okf else "the exhausted-iterator edge does not leave the loop"),
                   t.get("span"))
+    # iterator pipelines driven to completion (`.for_each`, `.collect`, `.all`, …) are loops too: their source must be finite
+    DRIVERS = ("for_each", "try_for_each", "collect", "fold", "sum", "count", "all", "any", "find", "position", "try_fold", "last", "max", "min",
+               "product", "find_map", "reduce", "max_by", "min_by", "collect_into_vec", "reduce_with")
+    for k in sorted(cn):
+        b = F.bodies[k]
+        env = Env(b)
+        for bi, t in b.calls():
+            if "fn" not in t or t["fn"]["name"] not in DRIVERS or not t["args"]:
+                continue
+            cid = callee_id(t["fn"])
+            if not ("iter::" in cid or "Iterator::" in cid):
+                continue
+            n += 1
+            it = ev.operand(env, t["args"][0], (bi, None))
+            okf = finite_iter(it)
+            R.add(rule, config, k, "pipeline@bb%d" % bi, okf,
+                  "%s over %s" % (t["fn"]["name"], short(it)[:100]) if okf else "the iterator `%s` driven by `%s` is not a recognised finite iterator: may not terminate" % (short(it)[:120], t["fn"]["name"]),
+                  t.get("span"))
     # recursion: only the model builder's bounded self-delegation (outside this cone) — no cycle on the cone
     color = {}
     cyc = []
@@ -361,5 +380,5 @@ def rule_loops_bounded(F, ev, R, config, rule="R-LOOPS-BOUNDED"):
         if k not in color:
             dfs(k, [k])
     R.add(rule, config, "-", "no-recursion-on-cone", not cyc, "" if not cyc else "recursive call cycle on the no-panic cone: %s" % [(a[-40:], c[-40:]) for a, c in cyc[:2]])
-    R.floor(rule, config, 9, "loops on the cone (pinned tree: 9)")
+    R.floor(rule, config, 10, "loops and driven iterator pipelines on the cone (pinned tree: 9 loops + 5/7 pipelines)")
     return n
